@@ -428,12 +428,18 @@ func TestC02Free(t *testing.T) {
 
 // ---- C09: a reference's view never ends on a stale value, the resolver never overlaps ----
 
-func TestC09Free(t *testing.T) {
-	drive(t, "C09", "one RefCount (always referenced by an anchor reference, resolver returns fresh value ids) with real parallelism: goroutine 0 replaces the context again and again (each replacement drops the value and resolves afresh), the others AddRef with a recording callback (every 4th nil) and Release some of them; afterwards the final value is awaited; oracle: the resolver is never in two calls at once, no callback is told about a value whose release function has already run, and the last state delivered to every unreleased reference's callback is the final value (a reference added while a value was being replaced must not be left with the replaced value); half of the cases run beside a goroutine forcing preemption through runtime.GC; non-trivial iff >= 2 goroutines; distinct by program", 16,
+func TestC09Free(t *testing.T) { refcountFree(t, "C09") }
+
+// TestC08Free runs the same programs and decides the release-count clause (C08).
+func TestC08Free(t *testing.T) { refcountFree(t, "C08") }
+
+func refcountFree(t *testing.T, prop string) {
+	drive(t, prop, "one RefCount (always referenced by an anchor reference, resolver returns fresh value ids) with real parallelism: goroutine 0 replaces the context again and again (each replacement drops the value and resolves afresh), the others AddRef with a recording callback (every 4th nil) and Release some of them; afterwards the final value is awaited; oracle: the resolver is never in two calls at once, no callback is told about a value whose release function has already run, and the last state delivered to every unreleased reference's callback is the final value (a reference added while a value was being replaced must not be left with the replaced value); C08: after the last reference is released every value the resolver produced has had its release function called exactly once; half of the cases run beside a goroutine forcing preemption through runtime.GC; non-trivial iff >= 2 goroutines; distinct by program", 16,
 		func(cs Case, v *ev.Verdict) {
 			f := &failer{v: v}
 			var nextVal, inResolver atomic.Int32
 			relAt := make([]atomic.Int32, 4096) // relAt[id % len] == id once value id's release func ran
+			relN := make([]atomic.Int32, 4096)  // number of release calls per value id
 			resolver := func(ctx context.Context, released func()) (int, func(), error) {
 				if n := inResolver.Add(1); n > 1 {
 					f.add("C09", "refcount:resolver-overlap", "%d resolver calls running at once", n)
@@ -441,7 +447,7 @@ func TestC09Free(t *testing.T) {
 				runtime.Gosched()
 				id := int(nextVal.Add(1))
 				inResolver.Add(-1)
-				return id, func() { relAt[id%len(relAt)].Store(int32(id)) }, nil
+				return id, func() { relAt[id%len(relAt)].Store(int32(id)); relN[id%len(relN)].Add(1) }, nil
 			}
 			root, cancelRoot := context.WithCancel(context.Background())
 			defer cancelRoot()
@@ -470,12 +476,12 @@ func TestC09Free(t *testing.T) {
 					}
 				}
 				ref := rc.AddRef(cb)
+				vmu.Lock()
 				if !nilCb {
-					vmu.Lock()
 					views = append(views, vw)
-					refs[vw] = ref
-					vmu.Unlock()
 				}
+				refs[vw] = ref // also references without a callback: they are released at the end
+				vmu.Unlock()
 				return vw, ref
 			}
 			add(false) // anchor
@@ -550,6 +556,30 @@ func TestC09Free(t *testing.T) {
 			}
 			vmu.Unlock()
 			fref.Release()
+			// C08: nothing references the container any more (keep-unreferenced is off): every value
+			// must be released exactly once. A superseded resolver call may still be on its way to
+			// hand back its stale result: give it the processor until every value has been seen.
+			n := int(nextVal.Load())
+			if n < len(relN) {
+				for spin := 0; spin < 2000000; spin++ {
+					missing := false
+					for id := 1; id <= n; id++ {
+						if relN[id].Load() == 0 {
+							missing = true
+						}
+					}
+					if !missing && inResolver.Load() == 0 {
+						break
+					}
+					runtime.Gosched()
+				}
+				for id := 1; id <= n; id++ {
+					if c := relN[id].Load(); c != 1 {
+						f.add("C08", "refcount:release-count-at-end", "after the last reference was released the release function of value %d has run %d times, want exactly once (%d values resolved)", id, c, n)
+						break
+					}
+				}
+			}
 		})
 }
 
@@ -723,11 +753,11 @@ func TestC15Free(t *testing.T) {
 // ---- C18: limit and exactly-once under real parallelism ----
 
 func TestC18Free(t *testing.T) {
-	drive(t, "C18", "2..10 producers enqueue batches into a queue with limit 1..3 (or unlimited) with real parallelism; 1..4 pollers call the zero-argument Enqueue() throughout (half of the cases with a goroutine forcing preemption through runtime.GC); jobs count concurrent and total executions; every returned (queued, running) pair is checked; WaitIdle at the end; non-trivial iff >= 2 producers; distinct by program", 10,
+	drive(t, "C18", "2..10 producers enqueue batches into a queue with limit 1..3 (or unlimited), constructed with 0/500/1000 short initial jobs, with real parallelism; 1..4 pollers call the zero-argument Enqueue() throughout (half of the cases with a goroutine forcing preemption through runtime.GC); jobs count concurrent and total executions; every returned (queued, running) pair is checked; WaitIdle at the end; non-trivial iff >= 2 producers; distinct by program", 10,
 		func(cs Case, v *ev.Verdict) {
 			f := &failer{v: v}
 			limit := cs.Objs % 4 // 0 = unlimited
-			q := conc.NewConcurrentQueue(limit)
+			var q *conc.ConcurrentQueue
 			var active, total, enq atomic.Int32
 			var mu sync.Mutex
 			runs := map[int]int{}
@@ -744,6 +774,14 @@ func TestC18Free(t *testing.T) {
 					active.Add(-1)
 				}
 			}
+			// 0, 500 or 1000 short jobs are handed to the constructor: its workers start
+			// (and finish jobs) while the constructor may still be distributing the rest
+			var initial []func()
+			for i := 0; i < (cs.Objs%3)*500; i++ {
+				initial = append(initial, mk(5000000+i))
+			}
+			enq.Add(int32(len(initial)))
+			q = conc.NewConcurrentQueue(limit, initial...)
 			// pollers read the counters through the zero-argument Enqueue while the producers
 			// and workers run; a collector goroutine forces asynchronous preemption so that a
 			// poller can be suspended between any two instructions
@@ -786,6 +824,24 @@ func TestC18Free(t *testing.T) {
 					}
 				}
 			})
+			// every job has run once the harness-side counter says so; the queue must then report
+			// (0, 0) as soon as its workers have done their bookkeeping (no wall clock involved:
+			// the workers get the processor until they have)
+			settled := false
+			for spin := 0; spin < 4000000; spin++ {
+				if total.Load() == enq.Load() {
+					if qd, rn := q.Enqueue(); qd == 0 && rn == 0 {
+						settled = true
+						break
+					}
+				}
+				runtime.Gosched()
+			}
+			if !settled {
+				qd, rn := q.Enqueue()
+				f.add("C18", "conc:counts-never-idle", "all %d jobs have run (%d executions) but the queue keeps reporting (queued=%d, running=%d)", enq.Load(), total.Load(), qd, rn)
+				return
+			}
 			if err := q.WaitIdle(context.Background(), nil); err != nil {
 				f.add("C18", "conc:waitidle", "WaitIdle returned %v", err)
 			}
@@ -805,7 +861,7 @@ func TestC18Free(t *testing.T) {
 // ---- C05: a superseding call returns only after the instance is cancelled, also under lock contention ----
 
 func TestC05Free(t *testing.T) {
-	drive(t, "C05", "a StateRoutineContainer with a running instance; 1..9 contender goroutines keep the container lock busy (GetState / SetState(unchanged) with a yielding compare function) while one goroutine issues a superseding call (ClearContext | SetContext(nil) | SetState(empty) | SetState(other) | SetStateRoutine(nil) | RestartRoutine); oracle: when that call returns the instance that was running has a cancelled context; non-trivial iff >= 2 goroutines; distinct by program", 12,
+	drive(t, "C05", "a StateRoutineContainer with a running instance; 1..9 contender goroutines keep the container lock busy (GetState / SetState(unchanged) with a yielding compare function) while one goroutine issues a superseding call (ClearContext | SetContext(nil) | SetState(empty) | SetState(other) | SetStateRoutine(nil) | RestartRoutine), in half of the rounds of the latter four right after the owner cancelled the root context, which in half of the cases is of a caller-defined Context type (cancellation reaches derived contexts asynchronously); oracle: when that call returns the instance that was running has a cancelled context; non-trivial iff >= 2 goroutines; distinct by program", 12,
 		func(cs Case, v *ev.Verdict) {
 			f := &failer{v: v}
 			rounds := cs.G[0]
@@ -821,6 +877,11 @@ func TestC05Free(t *testing.T) {
 					return ctx.Err()
 				})
 				root, cancel := context.WithCancel(context.Background())
+				if cs.RW {
+					// a context type of the caller's own: derived contexts learn of its
+					// cancellation through a goroutine, a little after cancel() returned
+					root, cancel = newOwnCtx()
+				}
 				sc.SetContext(root, false)
 				sc.SetState(1)
 				for entered.Load() == 0 {
@@ -844,6 +905,10 @@ func TestC05Free(t *testing.T) {
 				}
 				runtime.Gosched()
 				name := ""
+				if code%12 >= 6 && code%6 >= 2 {
+					// the owner cancels the root context right before the superseding call
+					cancel()
+				}
 				switch code % 6 {
 				case 0:
 					name = "ClearContext"
@@ -875,6 +940,35 @@ func TestC05Free(t *testing.T) {
 				cancel()
 			}
 		})
+}
+
+// ownCtx is a caller-defined context type (see routinex): WithCancel(ownCtx) has to
+// watch its Done channel from a goroutine.
+type ownCtx struct {
+	context.Context
+	mu   sync.Mutex
+	done chan struct{}
+	err  error
+}
+
+func newOwnCtx() (context.Context, context.CancelFunc) {
+	c := &ownCtx{Context: context.Background(), done: make(chan struct{})}
+	return c, func() {
+		c.mu.Lock()
+		if c.err == nil {
+			c.err = context.Canceled
+			close(c.done)
+		}
+		c.mu.Unlock()
+	}
+}
+
+func (c *ownCtx) Done() <-chan struct{} { return c.done }
+
+func (c *ownCtx) Err() error {
+	c.mu.Lock()
+	defer c.mu.Unlock()
+	return c.err
 }
 
 // ---- C03: no missed broadcast under real contention (incl. the asynchronous slow path) ----
